@@ -390,4 +390,4 @@ def case_strategy():
 def run(ctx):
     global CTX
     CTX = ctx
-    run_cases(ctx, case_strategy(), guarded(ctx, check_case), ctx.budget(2400, 100000))
+    run_cases(ctx, case_strategy(), guarded(ctx, check_case), ctx.budget(2400, 40000))
